@@ -43,6 +43,24 @@ theorem primKind_matches_switch : ∀ k ∈ ["bool", "string", "bytes", "int", "
     ∃ row ∈ cueKindTable, goKindOf k ∈ row.1 ∧ (Mp.primKind k).map (fun t => "PT_" ++ t) = row.2.head? := by decide
 
 /-! axiom audit (one line per theorem: a theorem that no longer checks is missing from the output) -/
+/-- C15, what `Mp/CueWalk.lean` assumes of the source: CueValidate starts every walk at the root with the blocked list; every
+    Validate method hands ITS cue path and ITS blocked list on to every Validate it calls (no `nil`, no other list), and none of
+    them assigns to these parameters (opPath.Validate moves its own cue path: that is the walk) -/
+theorem blocked_list_handed_down :
+    validateCalls.all (fun c => c.2.2 == "blockedRootFields" && (if c.1 == "CueValidate" then c.2.1 == "CuePath{}" else c.2.1 == "cuePath")) = true
+    ∧ validateReassignsItsParameters = false := by decide
+/-- who calls Validate, in source order: CueValidate (a path or a group at the top), opPath (key, filter, call), opFilter (its
+    group), opLogicalOperation (path and group operands), opFunction (path and group arguments); opPathIdent calls none -/
+theorem validate_calls_pinned : validateCalls.map (·.1) =
+    ["CueValidate", "CueValidate", "opPath.Validate", "opPath.Validate", "opPath.Validate", "opFilter.Validate",
+     "opLogicalOperation.Validate", "opLogicalOperation.Validate", "opFunction.Validate", "opFunction.Validate"] := by decide
+/-- a key is compared with the blocked list in one place, when the cue path is empty; a `$` resets the cue path -/
+theorem blocked_test_at_root_only :
+    blockedTests = ["len(cuePath) == 0 && strInStrSlice(t.IdentName, blockedRootFields)"] ∧ dollarResetsCuePath = true := by decide
+
+#print axioms blocked_list_handed_down
+#print axioms validate_calls_pinned
+#print axioms blocked_test_at_root_only
 #print axioms boolean_rows_covered
 #print axioms number_rows_covered
 #print axioms string_rows_covered
